@@ -260,6 +260,26 @@ impl Sim {
             outstanding_n.push([vec![0usize; 256], vec![0usize; 256]]);
         }
         while server.get_event().is_some() {}
+        // "counters after a long session": in a third of the executions every endpoint starts with its packet sequence
+        // and the sliced-message id of its unreliable channels just below a width boundary of their encodings
+        // (reliable message ids are not seeded: the receiver expects them from 0). Own random stream, so that the
+        // rest of the execution is the same with and without it.
+        let mut srng = Rng::new(run_seed ^ 0x5EED_C0DE_0000_0001);
+        if srng.chance(1, 3) {
+            // (the packet format ends at 2^62 - 1: a run may send tens of thousands of packets, so the highest start is 2^61)
+            const EDGES: [u64; 9] = [1 << 6, 1 << 8, 1 << 14, 1 << 16, 1 << 24, 1 << 30, 1 << 32, 1 << 48, 1 << 61];
+            for k in 0..clients.len() {
+                for end in 0..2 {
+                    let seq = *srng.pick(&EDGES) - srng.range(1, 40);
+                    let sid = *srng.pick(&EDGES) - srng.range(1, 12);
+                    let c: Option<&mut RenetClient> = if end == 0 { clients.get_mut(k) } else { server.verif_connection_mut(ids[k]) };
+                    if let Some(c) = c {
+                        c.verif_seed_counters(seq, 0);
+                        c.verif_seed_unreliable_sliced_id(sid);
+                    }
+                }
+            }
+        }
         Sim {
             cfg,
             server,
